@@ -42,7 +42,7 @@ func runC06(c *Ctx) {
 		c.Anchor("C06.1", hn)
 		var arg ssa.Value
 		var at ssa.Instruction
-		w.eachInstr(h, func(in ssa.Instruction) {
+		w.eachInstrDeep(h, func(in ssa.Instruction) {
 			call, ok := in.(*ssa.Call)
 			if !ok {
 				return
@@ -58,15 +58,19 @@ func runC06(c *Ctx) {
 			c.Bad("C06.1", fname(h), "lifetime argument", w.pos(h.Pos()), "handler no longer arms/resets the allocation timer through CreateAllocation / Refresh")
 			continue
 		}
-		lc, _ := callOf(arg)
-		if lc == nil || lc.Call.StaticCallee() != life || !strings.HasSuffix(w.key(lc.Call.Args[0]), w.key(h.Params[0])) || !w.sameKey(lc.Call.Args[1], h.Params[1]) {
-			c.Bad("C06.1", fname(h), "lifetime argument", w.instrPos(at), "the duration handed to the timer ("+w.desc(arg)+") is not allocationLifeTime(req, stunMsg) of this request")
+		// every value the duration can take is the configured default or the LIFETIME decoded
+		// from this very request under decode-ok ∧ < 1h (followed through helpers and struct values)
+		if bad, nDec, nDef := w.lifetimeSources(arg, at, h.Params[0], h.Params[1]); bad != "" || nDec == 0 || nDef == 0 {
+			if bad == "" {
+				bad = fmt.Sprintf("%d decoded / %d default sources", nDec, nDef)
+			}
+			c.Bad("C06.1", fname(h), "lifetime argument", w.instrPos(at), "the duration handed to the timer ("+w.desc(arg)+") is not the granted lifetime of this request (configured default, or the requested LIFETIME when it decodes and is below one hour): "+bad)
 		} else {
-			c.OK("C06.1", fname(h), "lifetime argument", w.instrPos(at), "timer duration = allocationLifeTime(req, stunMsg)")
+			c.OK("C06.1", fname(h), "lifetime argument", w.instrPos(at), fmt.Sprintf("timer duration: %d default and %d guarded decoded source(s) of this request", nDef, nDec))
 		}
 		// the LIFETIME literal carries the same value
 		found, okSame := false, false
-		w.eachInstr(h, func(in ssa.Instruction) {
+		w.eachInstrDeep(h, func(in ssa.Instruction) {
 			al, ok := in.(*ssa.Alloc)
 			if !ok {
 				return
@@ -132,54 +136,15 @@ func runC06(c *Ctx) {
 	c.Rule("C06.2", "allocationLifeTime: every returned value is either req.AllocationLifetime or the Duration decoded by Lifetime.GetFrom(m), the latter only under GetFrom(m)==nil and decoded < C with C the constant one hour", 1)
 	{
 		c.Anchor("C06.2", "allocationLifeTime")
-		hour := int64(3600e9)
 		bad := ""
 		nDec, nDef := 0, 0
-		reqKey := w.key(life.Params[0])
-		var check func(v ssa.Value, facts []Fact)
-		check = func(v ssa.Value, facts []Fact) {
-			v = stripIface(v)
-			if phi, ok := v.(*ssa.Phi); ok {
-				for i, e := range phi.Edges {
-					pred := phi.Block().Preds[i]
-					fs := w.factsAt(pred.Instrs[len(pred.Instrs)-1])
-					fs = append(fs, edgeFacts(pred, phi.Block())...)
-					check(e, fs)
-				}
-				return
-			}
-			if w.key(v) == reqKey+".AllocationLifetime" {
-				nDef++
-				return
-			}
-			// decoded value: load of local Lifetime.Duration whose storage was filled by GetFrom
-			b, f, ok := fieldLoadAddrOfLoad(v)
-			if !ok || f.Name() != "Duration" {
-				bad = "returns " + w.desc(v) + ", neither the configured default nor the decoded LIFETIME"
-				return
-			}
-			nDec++
-			okDecode, okCap := false, false
-			for _, fct := range facts {
-				if x, isNil, isNF := nilFact(fct); isNF && isNil {
-					if gc, _ := callOf(x); gc != nil && gc.Call.StaticCallee() != nil && gc.Call.StaticCallee().Name() == "GetFrom" && w.sameKey(gc.Call.Args[0], b) && w.sameKey(gc.Call.Args[1], life.Params[1]) {
-						okDecode = true
-					}
-				}
-				if fct.Op == "<" && fct.Truth && w.sameKey(fct.X, v) {
-					if k, isC := constInt(fct.Y); isC && k == hour {
-						okCap = true
-					}
-				}
-			}
-			if !okDecode {
-				bad = "the decoded LIFETIME is used without Lifetime.GetFrom(m) having succeeded"
-			} else if !okCap {
-				bad = "the requested LIFETIME is granted without the test requested < 1h (3600 s)"
-			}
-		}
 		for _, ret := range returnsOf(life) {
-			check(w.resolveLoad(ret.Results[0]), w.factsAt(ret))
+			b, d1, d2 := w.lifetimeSources(ret.Results[0], ret, life.Params[0], life.Params[1])
+			if b != "" {
+				bad = b
+			}
+			nDec += d1
+			nDef += d2
 		}
 		if bad == "" && nDec >= 1 && nDef >= 1 {
 			c.OK("C06.2", fname(life), "granted lifetime", w.pos(life.Pos()), "requested value only under decode-ok ∧ requested < 1h; configured default otherwise")
@@ -196,10 +161,12 @@ func runC06(c *Ctx) {
 	{
 		h := w.Func("server", "", "handleRefreshRequest")
 		del := w.Func("allocation", "Manager", "DeleteAllocation")
+		// the lifetime of C06.1: the value handed to a.Refresh (wherever in the handler's body,
+		// helpers included, that call is made)
 		var lifeVal ssa.Value
-		w.eachInstr(h, func(in ssa.Instruction) {
-			if call, ok := in.(*ssa.Call); ok && call.Call.StaticCallee() == life {
-				lifeVal = call
+		w.eachInstrDeep(h, func(in ssa.Instruction) {
+			if call, ok := in.(*ssa.Call); ok && call.Call.StaticCallee() == refresh {
+				lifeVal = call.Call.Args[1]
 			}
 		})
 		zeroFact := func(at ssa.Instruction) int {
@@ -219,7 +186,7 @@ func runC06(c *Ctx) {
 			return 0
 		}
 		nDel, nRef := 0, 0
-		w.eachInstr(h, func(in ssa.Instruction) {
+		w.eachInstrDeep(h, func(in ssa.Instruction) {
 			call, ok := in.(*ssa.Call)
 			if !ok {
 				return
@@ -490,4 +457,63 @@ func ruleDeleteAllocation(c *Ctx, rule string) {
 	} else {
 		c.Bad(rule, fname(del), "Close", w.pos(del.Pos()), why)
 	}
+}
+
+// lifetimeSources classifies every source of a granted-lifetime value (C06.1/C06.2): the
+// configured default (field AllocationLifetime of the request context req), or the Duration
+// of a local proto.Lifetime that GetFrom(msg) may have written, under GetFrom(...) == nil and
+// value < one hour. Returns a complaint, and the number of decoded / default sources.
+func (w *World) lifetimeSources(v ssa.Value, at ssa.Instruction, req, msg *ssa.Parameter) (bad string, nDec, nDef int) {
+	hour := int64(3600e9)
+	leaves, complete := w.sources(v, at, nil)
+	if !complete {
+		bad = "the value could not be followed to its sources"
+	}
+	for i := range leaves {
+		l := &leaves[i]
+		// configured default: field AllocationLifetime of the request context
+		if p, isP := l.val.(*ssa.Parameter); isP && (p == req || w.key(p) == w.key(req)) && len(l.sel) == 1 && len(l.frames) == 0 {
+			if st, ok := derefType(p.Type()).Underlying().(*types.Struct); ok && l.sel[0] < st.NumFields() && st.Field(l.sel[0]).Name() == "AllocationLifetime" {
+				nDef++
+				continue
+			}
+		}
+		if len(l.sel) == 0 && l.mem == nil && w.key(l.outer(w, l.val)) == w.key(req)+".AllocationLifetime" {
+			nDef++
+			continue
+		}
+		if l.mem == nil || l.field == nil || l.field.Name() != "Duration" || l.clobber == nil {
+			bad = "a source is " + w.desc(l.val) + " (" + l.where + "), neither the configured default nor the decoded LIFETIME"
+			continue
+		}
+		gc, _ := l.clobber.(*ssa.Call)
+		if gc == nil || gc.Call.StaticCallee() == nil || gc.Call.StaticCallee().Name() != "GetFrom" || len(gc.Call.Args) != 2 || gc.Call.Args[0] != ssa.Value(l.mem) {
+			bad = "the LIFETIME variable read at " + l.where + " may have been written by something other than Lifetime.GetFrom"
+			continue
+		}
+		if om := l.outer(w, gc.Call.Args[1]); !(om == ssa.Value(msg) || w.sameKey(om, msg)) {
+			bad = "the LIFETIME is decoded from " + w.desc(om) + ", not from this request"
+			continue
+		}
+		nDec++
+		okDecode, okCap := false, false
+		for _, fct := range l.facts {
+			if x, isNil, isNF := nilFact(fct); isNF && isNil {
+				if c2, _ := callOf(x); c2 == gc {
+					okDecode = true
+				}
+			}
+			if fct.Op == "<" && fct.Truth && l.isAlias(w, fct.X) {
+				if k, isC := constInt(fct.Y); isC && k == hour {
+					okCap = true
+				}
+			}
+		}
+		if !okDecode {
+			bad = "the decoded LIFETIME is used without Lifetime.GetFrom(m) having succeeded"
+		} else if !okCap {
+			bad = "the requested LIFETIME is granted without the test requested < 1h (3600 s)"
+		}
+	}
+	return bad, nDec, nDef
 }
